@@ -8,6 +8,7 @@ from gen import header, grammar
 
 LEVEL_NOTE = [
     "theorems C13.header_matches / accept / at_most_once / reject_no_header are about Generated.headerRegex — the pattern CheckHeader.check_header compiles, captured and translated on every run (obligation pattern_shape: frame, filler, filler, file-name line, filler, By, filler, Created, Updated, filler, frame; pattern_flags: DOTALL) — and about Model/Header.lean, the three-flag state machine of CheckHeader.run, for EVERY well-formed header (any file name, login, e-mail, stamps, art) and every continuation",
+    "file level, for every rule table (C13.at_most_once_file / reject_file / accept_file / headerDiags_length): CheckHeader runs after every matched primary and reads of a statement only whether the primary was IsComment and its first token, so over a whole file it is the state machine over the statements of the engine's trace; tie: `always` stream (source -> model lexer -> engine replaying the observed decisions -> model CheckHeader with the NFA on the regenerated pattern, compared with what the real CheckHeader emitted, position included)",
     "A2: `re.search` finds a match whenever the declarative semantics has one (the search function is a parameter of the theorems); validated by comparing re.search with the model's NFA on headers, mutated headers and near-misses",
     "tie: `hdr` (regex) and `hdrrun` (state machine fed with the statements of the observed engine trace) correspondences + the header oracle on the real pipeline",
 ]
@@ -55,6 +56,7 @@ def run(res, tier, br, model_ok=True, search=False):
     progs = families.programs(rng, 40 if big else 8) + families.programs(rng, 20 if big else 5, comments=True)
     drv_reqs, drv_meta = [], []
     texts_for_regex = []
+    e2e = []
     for p in progs:
         fields = header.random_fields(rng)
         hdr = header.header42(p.name, **fields)
@@ -93,6 +95,7 @@ def run(res, tier, br, model_ok=True, search=False):
                     drv_reqs.append({"op": "hdrrun", "events": evs})
                     drv_meta.append((vname, n, rp))
             texts_for_regex.append(text[:1200])
+            e2e.append((p.name, text))
     # the regex itself: re.search vs the model's NFA on header texts and near-misses
     pat = None
     import norminette.rules.check_header as CH
@@ -128,6 +131,9 @@ def run(res, tier, br, model_ok=True, search=False):
                 first = t
         if nbad:
             res.broken.append(f"correspondence hdr (re.search vs model NFA on the regenerated pattern): {nbad} disagreements, e.g. {first[:120]!r}")
+    if model_ok and e2e:
+        import alwayscorr
+        alwayscorr.check(res, e2e[:: (1 if big else 3)])
     if model_ok and drv_reqs:
         rep = Driver().batch(drv_reqs)
         nbad, first = 0, None
